@@ -55,6 +55,11 @@ def cases(rng, tier):
             bad = rng.random() < 0.2
             lo, hi = (-(n + 2), n + 1) if bad else (-n, n - 1)
             add(a, {"kind": "list", "is": [rng.randint(lo, hi) for _ in range(kk)]})
+        # ordered index lists longer than the array has runs: ascending / descending / constant, negative, non-negative and MIXED signs
+        j = rng.randint(0, n)
+        add(a, {"kind": "list", "is": list(range(-j, n - j)) + ([n - j - 1] * 2 if n - j - 1 >= -n and j < n else [])})
+        add(a, {"kind": "list", "is": sorted(rng.randint(-n, n - 1) for _ in range(n + 3))})
+        add(a, {"kind": "list", "is": sorted((rng.randint(-n, n - 1) for _ in range(n + 2)), reverse=True)})
         masks = [[bool((m >> i) & 1) for i in range(n)] for m in (range(2 ** n) if n <= 4 else rng.sample(range(2 ** n), 12))]
         for bs in masks:
             add(a, {"kind": "mask", "bs": bs, "rl": False})
